@@ -564,34 +564,56 @@ def label_of(sem, i):
     return f"{sem['names'][i]}," + r" $\it{" + f"{sem['symbols'][i]}" + r"}$" + f" ({sem['units'][i]})"
 
 
-def run_plot_impl(contour, sample, dc, semantics, swap):
+def run_plot_impl(contour, sample, dc, semantics, swap, ax_mode="left"):
+    """ax_mode 'left': the caller supplies an axes that is NOT pyplot's current axes (left panel of a two-panel figure,
+    the right panel is current); 'none': ax=None, the function creates its own figure (a decoy figure is current before
+    the call and must stay untouched); 'current': the supplied axes is pyplot's current axes"""
     import matplotlib.pyplot as plt
     from virocon import plot_2D_contour
 
-    fig, ax = plt.subplots()
+    plt.close("all")
+    if ax_mode == "none":
+        _, other = plt.subplots()
+        ax = None
+    elif ax_mode == "current":
+        _, ax = plt.subplots()
+        other = None
+    else:
+        _, (ax, other) = plt.subplots(1, 2)
     try:
         try:
             with warnings.catch_warnings():
                 warnings.simplefilter("ignore")
-                ret = plot_2D_contour(contour, sample=sample, design_conditions=dc, semantics=semantics,
-                                      swap_axis=swap, ax=ax)
+                if ax is None:
+                    ret = plot_2D_contour(contour, sample=sample, design_conditions=dc, semantics=semantics, swap_axis=swap)
+                else:
+                    ret = plot_2D_contour(contour, sample=sample, design_conditions=dc, semantics=semantics,
+                                          swap_axis=swap, ax=ax)
         except Exception as e:  # noqa: BLE001
             return {"err": type(e).__name__, "msg": str(e)[:200]}
+        rax = ret[0] if isinstance(ret, tuple) else ret
+        if not (hasattr(rax, "lines") and hasattr(rax, "collections")):
+            return {"err": "NoAxesReturned", "msg": f"returned {type(rax).__name__} instead of a matplotlib axes"}
         out = {
             "lines": [np.c_[np.asarray(l.get_xdata(orig=False), dtype=float),
-                            np.asarray(l.get_ydata(orig=False), dtype=float)] for l in ax.lines],
-            "colls": [np.asarray(np.ma.getdata(c.get_offsets()), dtype=float).reshape(-1, 2) for c in ax.collections],
-            "xlabel": ax.get_xlabel(), "ylabel": ax.get_ylabel(),
+                            np.asarray(l.get_ydata(orig=False), dtype=float)] for l in rax.lines],
+            "colls": [np.asarray(np.ma.getdata(c.get_offsets()), dtype=float).reshape(-1, 2) for c in rax.collections],
+            "xlabel": rax.get_xlabel(), "ylabel": rax.get_ylabel(),
             "ret_tuple": isinstance(ret, tuple),
+            "ax_mode": ax_mode,
+            # artists that ended up in an axes the function was not asked to draw into
+            "stray": 0 if other is None else len(other.lines) + len(other.collections),
+            "stray_labels": "" if other is None else other.get_xlabel() + other.get_ylabel(),
         }
+        out["ret_ax_ok"] = (rax is ax) if ax is not None else (rax is not other)
         if isinstance(ret, tuple):
-            out["ret_dc"] = ret[1]
-            out["ret_ax_ok"] = ret[0] is ax
-        else:
-            out["ret_ax_ok"] = ret is ax
+            try:
+                out["ret_dc"] = None if isinstance(ret[1], (bool, type(None))) else np.asarray(ret[1], dtype=float)
+            except Exception:  # noqa: BLE001
+                out["ret_dc"] = "unreadable"
         return out
     finally:
-        plt.close(fig)
+        plt.close("all")
 
 
 def oracle_plot(case, contour, coords, sample, dc, semantics, swap, impl):
@@ -645,7 +667,20 @@ def oracle_plot(case, contour, coords, sample, dc, semantics, swap, impl):
     if impl["xlabel"] != label_of(sem, xi) or impl["ylabel"] != label_of(sem, yi):
         bad.append(("axis_labels_swap_iff", f"xlabel {impl['xlabel']!r} ylabel {impl['ylabel']!r}"))
     if not impl["ret_ax_ok"]:
-        bad.append(("returns_axes", "returned axes object is not the one plotted into"))
+        bad.append(("returns_axes", "returned axes object is not the one plotted into" if impl["ax_mode"] != "none"
+                    else "ax=None: drew into an axes that existed before the call instead of a new figure"))
+    if impl["stray"] or impl["stray_labels"]:
+        bad.append(("draws_into_given_axes",
+                    f"ax_mode={impl['ax_mode']}: {impl['stray']} artist(s) / labels {impl['stray_labels']!r} ended up in "
+                    "another axes (pyplot's current one) than the one supplied / returned"))
+    # returned design conditions (when the function returns them): the ones that were drawn
+    if impl["ret_tuple"] and impl.get("ret_dc") is not None and (dc is True or isinstance(dc, np.ndarray)):
+        want_dc = dflt if dc is True else dc
+        got_dc = impl["ret_dc"]
+        if isinstance(got_dc, str) or not same_vals(np.asarray(got_dc, dtype=float).reshape(-1, 2), want_dc):
+            bad.append(("returned_design_conditions_are_the_drawn_ones",
+                        f"swap_axis={swap}: returned {np.asarray(got_dc).tolist()[:3] if not isinstance(got_dc, str) else got_dc}… "
+                        f"drawn / expected {np.asarray(want_dc).tolist()[:3]}…"))
     return bad, dflt
 
 
@@ -654,7 +689,7 @@ def process_plot(ck, cases):
     for case in cases:
         contour, coords, sample, dc, semantics = materialize_plot(case)
         swap = bool(case["swap"])
-        impl = run_plot_impl(contour, sample, dc, semantics, swap)
+        impl = run_plot_impl(contour, sample, dc, semantics, swap, case.get("ax_mode", "left"))
         bad, dflt = oracle_plot(case, contour, coords, sample, dc, semantics, swap, impl)
         p = len(lines)
         lines.append(["RUN", "polyline", "1" if swap else "0"] + fl(coords.ravel()))
@@ -672,6 +707,11 @@ def process_plot(ck, cases):
         ck.count("plot2d:design_conditions=" + (case["dc"] if case["dc"] in ("none", "true", "false") else "array"))
         ck.count("plot2d:sample=" + ("none" if sample is None else case.get("sample_type", "array")))
         ck.count("plot2d:contour=" + case.get("contour", "stub"))
+        ck.count("plot2d:ax=" + {"left": "given(not current)", "none": "None", "current": "given(current)"}[case.get("ax_mode", "left")])
+        if isinstance(dc, np.ndarray) and len(dc) == 0:
+            ck.count("plot2d:design_conditions=empty_array")
+        if impl.get("ret_tuple") and impl.get("ret_dc") is not None and (dc is True or isinstance(dc, np.ndarray)):
+            ck.count("plot2d:returned_design_conditions_checked")
         for pred, detail in bad:
             ck.fail({"entry": "plot_2D_contour", "predicate": pred}, case, detail)
         div = None
@@ -720,7 +760,8 @@ def plot_cases(rng, seed, n_cases, start):
         convex = case["contour"] in ("ellipse", "IFORM", "ISORM")
         case["dc"] = str(rng.choice(["none", "true", "array", "array", "false"] if convex else ["none", "array", "array", "false"]))
         if case["dc"] == "array":
-            case["n_dc"] = int(rng.choice([1, 2, 3, 10]))
+            case["n_dc"] = int(rng.choice([1, 2, 3, 10, 0]))
+        case["ax_mode"] = ["left", "none", "left", "current"][i % 4]
         if rng.integers(0, 3):
             case["n_sample"] = int(rng.choice([1, 2, 10, 500]))
             case["sample_type"] = str(rng.choice(["array", "array", "frame", "list"]))
@@ -1400,6 +1441,8 @@ def corpus():
         {"kind": "plot2d", "gen": "corpus", "coords": tri, "swap": True, "dc": "none", "n_sample": 3, "contour": "stub"},
         {"kind": "plot2d", "gen": "corpus", "coords": [], "swap": False, "dc": "none", "contour": "stub"},
         {"kind": "plot2d", "gen": [0, 1], "contour": "IFORM", "swap": True, "dc": "true"},
+        {"kind": "plot2d", "gen": [0, 1], "contour": "IFORM", "swap": True, "dc": "true", "ax_mode": "none", "n_sample": 4},
+        {"kind": "plot2d", "gen": "corpus", "coords": tri, "swap": False, "dc": "array", "dc_pts": [], "ax_mode": "none", "contour": "stub"},
     ] + [
         # every contour class (OrContour used to store an object array that matplotlib refused)
         {"kind": "plot2d", "gen": [0, 2 + i], "contour": name, "swap": bool(i % 2), "dc": "none", "n_sample": 10}
